@@ -15,6 +15,7 @@ pub mod c09;
 pub mod c10;
 pub mod c11;
 pub mod c12;
+pub mod c12b;
 pub mod c13;
 pub mod c14;
 pub mod c15;
